@@ -74,8 +74,16 @@ pub fn run(rt: &tokio::runtime::Runtime, dir: &std::path::Path, c: &FileCase, ch
         3 => {
             // a sparse file: real content in the first 6 MiB (polling stops after 4 MiB), then a hole
             write_file(&path, c.size.min(6 << 20));
-            let f = std::fs::OpenOptions::new().write(true).open(&path).unwrap();
+            let mut f = std::fs::OpenOptions::new().write(true).open(&path).unwrap();
             f.set_len(c.size).unwrap();
+            // real content also around the 4 GiB mark (positions whose high 32 bits are not zero)
+            if c.size > (1u64 << 32) {
+                use std::io::Seek;
+                let from = (1u64 << 32) - 200_000;
+                f.seek(std::io::SeekFrom::Start(from)).unwrap();
+                let buf: Vec<u8> = (from..c.size).map(content).collect();
+                f.write_all(&buf).unwrap();
+            }
             drop(f);
             set_mtime(&path, c.size);
             let f = std::fs::File::open(&path).unwrap();
@@ -373,7 +381,9 @@ pub fn gen_c18(rng: &mut Rng, thorough: bool, emit: &mut dyn FnMut(FileCase)) {
     // a sparse file longer than 4 GiB: ranges whose length is, or passes through, a multiple of 2^32
     // (a 32-bit read size would be 0 there); only the first polls are made
     let big: u64 = (1u64 << 32) + 131079;
-    for (a, e) in [(0u64, 1u64 << 32), (0, (1 << 32) + 5), (5, (1 << 32) + 5), (70000, (1 << 32) + 70000), (0, big), (65536, (1u64 << 32) + 65536 + 65536), (1, 1 << 32)] {
+    for (a, e) in [(0u64, 1u64 << 32), (0, (1 << 32) + 5), (5, (1 << 32) + 5), (70000, (1 << 32) + 70000), (0, big), (65536, (1u64 << 32) + 65536 + 65536), (1, 1 << 32),
+                   // ranges that start just below, at and beyond 4 GiB (the position itself needs more than 32 bits)
+                   ((1 << 32) - 100_000, (1 << 32) + 100_000), ((1 << 32) - 1, (1 << 32) + 1), (1 << 32, (1 << 32) + 65536), ((1 << 32) + 5, big), (big - 100, big)] {
         emit(FileCase { kind: 3, size: big, a, e, truncs: vec![], companion: None, class: format!("G:sparse size={} range={}..{}", big, a, e) });
     }
     // regular files dated before 1970, whole-second and with a sub-second part
